@@ -53,13 +53,13 @@ CHECKS = {
     ),
     "C08": (
         "exhaustive tag-universe grid + Hypothesis specs/compressed tag sets against a rule predicate over a packaging-decided interpreter grid",
-        "33 requires_python shapes (incl. unions one branch of which ends exactly on a tag's X.Y) x 5 implementation/gil settings x every single (python, abi) tag of the stated universe (170 python tags x ~14 ABIs incl. flag combinations m/d/u/t/td, prefix look-alikes such as cp31/cp312, pypy/pyston ABIs) decided exhaustively, plus generated requires_python texts with compressed tag sets; verdict and the first three score components must equal the statement's rule evaluated on the dense interpreter grid X.Y.Z (Z<=40).",
+        "37 requires_python shapes (incl. unions of two and of three or more ranges one branch of which ends exactly on a tag's X.Y) x 5 implementation/gil settings x every single (python, abi) tag of the stated universe (170 python tags x ~14 ABIs incl. flag combinations m/d/u/t/td, prefix look-alikes such as cp31/cp312, pypy/pyston ABIs) decided exhaustively, plus generated requires_python texts with compressed tag sets; verdict and the first three score components must equal the statement's rule evaluated on the dense interpreter grid X.Y.Z (Z<=40).",
         "Which interpreters requires_python admits is decided by packaging.SpecifierSet, not by dep-logic; grid/interval-ambiguous specs and empty specs refused by from_spec are skipped and counted.",
         "DESIGN.md §5 C08",
     ),
     "C09": (
         "complete enumeration of the platform grid against a PEP 600/656/macOS rule oracle cross-checked with packaging.tags",
-        "All 460 platforms of the quantifier's grid: tag list equals the rule oracle, itself cross-checked against the installed packaging.tags generators (as a list for manylinux/macOS, as a set for musllinux/windows), no duplicates, EnvSpec platform score strictly falls along the list with `any` last, foreign tags rejected. Exhaustive, so quick = thorough.",
+        "All 460 platforms of the quantifier's grid: tag list equals the rule oracle, itself cross-checked against the installed packaging.tags generators (as a list for manylinux/macOS, as a set for musllinux/windows), no duplicates, EnvSpec platform score strictly falls along the list with `any` last, a wheel with several platform tags scores like its best tag in any order, foreign tags rejected. Exhaustive, so quick = thorough.",
         "fat* formats stripped; linux_<arch> optional on musllinux; musllinux_1_0 (packaging only) ignored in the cross-check; arm64 on macOS 10.x excluded; rank of linux_<arch> on manylinux is known finding T5 (excluded, counted).",
         "DESIGN.md §5 C09",
     ),
@@ -101,7 +101,7 @@ CHECKS = {
     ),
     "C16": (
         "exhaustive pairs over a configuration grid + Hypothesis requires_python pairs; relational (monotonicity / nesting / compare laws) oracle",
-        "2640 EnvSpecs (22 requires_python x 30 platforms x 4 implementations): all 7M ordered pairs for the compare() relations, all same-(platform, implementation) pairs for wheel monotonicity over 176 wheels, all same-family platform release pairs for tag nesting; generated requires_python pairs on top.",
+        "2880 EnvSpecs (24 requires_python x 30 platforms x 4 implementations): all 8.3M ordered pairs for the compare() relations, all same-(platform, implementation) pairs for wheel monotonicity over 176 wheels, all same-family platform release pairs for tag nesting; generated requires_python pairs on top.",
         "Subset of requires_python decided with packaging on final, sub-micro and pre-release probe points; documented platform families only.",
         "DESIGN.md §5 C16",
     ),
@@ -113,7 +113,7 @@ CHECKS = {
     ),
     "C18": (
         "Hypothesis PEP 427 grammar (valid + wrong extension/part count), differential against packaging.utils.parse_wheel_filename; exhaustive platform-name families; atheris in thorough",
-        "Generated wheel names with build tags, compressed tag sets and underscore-laden platform tags: tag sets must equal packaging's; wrong extension / part count must raise InvalidWheelFilename; every choices() family with multi-digit X_Y, aliases and str() round trip of the whole C09 grid.",
+        "Generated wheel names with build tags, compressed tag sets and underscore-laden platform tags: tag sets must equal packaging's, and under three target specs the wheel must be judged exactly like the best of its single-tag expansions (whatever the written order of the compressed sets); wrong extension / part count must raise InvalidWheelFilename; every choices() family with multi-digit X_Y, aliases and str() round trip of the whole C09 grid.",
         "Names packaging rejects for other reasons are outside the claim.",
         "DESIGN.md §5 C18",
     ),
